@@ -11,7 +11,7 @@ static const char LAB[4] = { 'a', 'b', 'c', 'd' };      /* 'd' is only ever a pr
 
 typedef struct { spif_list_t l; spif_obj_t e[SMAX + 2]; char lab[SMAX + 2]; int n; } st_t;
 
-enum { K_APPEND, K_PREPEND, K_INSERT_AT, K_REMOVE, K_REMOVE_AT, K_REVERSE, K_DONE, K_INSERT_NULL, K_REMOVE_STORED };     /* K_REMOVE_STORED: remove(the element stored at position i): it is the FIRST equal element that goes, whichever one was passed */     /* K_INSERT_NULL: insert_at(NULL object, i) - a NULL element is refused whatever the position */      /* done(): the list gives up everything it holds and stays usable */
+enum { K_APPEND, K_PREPEND, K_INSERT_AT, K_REMOVE, K_REMOVE_AT, K_REVERSE, K_DONE, K_INSERT_NULL, K_REMOVE_STORED, K_INSERT_SORTED };     /* K_INSERT_SORTED: the interface's insert() on a list in ascending order that does not hold the value yet (one place keeps the order) */     /* K_REMOVE_STORED: remove(the element stored at position i): it is the FIRST equal element that goes, whichever one was passed */     /* K_INSERT_NULL: insert_at(NULL object, i) - a NULL element is refused whatever the position */      /* done(): the list gives up everything it holds and stays usable */
 typedef struct { int k, x, i; } op_t;
 static op_t OPS[400]; static int NOPS;
 
@@ -26,6 +26,7 @@ static void build_ops(void)
     OPS[NOPS++] = (op_t) { K_DONE, 0, 0 };
     for (int i = -(S + 2); i <= S + 2; i++) OPS[NOPS++] = (op_t) { K_INSERT_NULL, 0, i };
     for (int i = 1; i < S; i++) OPS[NOPS++] = (op_t) { K_REMOVE_STORED, 0, i };
+    for (int x = 0; x < 3; x++) OPS[NOPS++] = (op_t) { K_INSERT_SORTED, x, 0 };
 }
 static void op_name(int i, char *b, size_t n)
 {
@@ -40,6 +41,7 @@ static void op_name(int i, char *b, size_t n)
     case K_DONE: snprintf(b, n, "done()"); break;
     case K_INSERT_NULL: snprintf(b, n, "insert_at(NULL,%d)", o->i); break;
     case K_REMOVE_STORED: snprintf(b, n, "remove(get(%d))", o->i); break;
+    case K_INSERT_SORTED: snprintf(b, n, "insert(%c)", LAB[o->x]); break;
     }
 }
 static spif_list_t new_list(void)
@@ -56,7 +58,7 @@ static void *fresh(void) { st_t *s = calloc(1, sizeof *s); s->l = new_list(); re
 static int new_len(st_t *s, op_t *o)
 {
     switch (o->k) {
-    case K_APPEND: case K_PREPEND: return s->n + 1;
+    case K_APPEND: case K_PREPEND: case K_INSERT_SORTED: return s->n + 1;
     case K_INSERT_AT: { int i = o->i < 0 ? o->i + s->n : o->i; if (i < 0) return s->n; return i > s->n ? i + 1 : s->n + 1; }
     default: return s->n;
     }
@@ -65,6 +67,10 @@ static int enabled(void *vs, int op)
 {
     st_t *s = vs; op_t *o = &OPS[op];
     if ((o->k == K_INSERT_AT || o->k == K_REMOVE_AT || o->k == K_INSERT_NULL) && abs(o->i) > s->n + 2) return 0;     /* window(n) */
+    if (o->k == K_INSERT_SORTED) {            /* ascending, no placeholders, value not held yet */
+        for (int k = 0; k < s->n; k++) if (!s->e[k] || s->lab[k] == LAB[o->x] || (k && s->lab[k - 1] > s->lab[k])) return 0;
+        return s->n + 1 <= S;
+    }
     if (o->k == K_REMOVE_STORED) return o->i < s->n && s->e[o->i] != NULL;
     if (o->k == K_INSERT_NULL && CLS != 0) return 0;         /* only the array class documents a guard on the element (the linked classes store a NULL element; NULL is not an element value of the statement) */
     return new_len(s, o) <= S;
@@ -145,6 +151,12 @@ static void apply(void *vs, int op)
                 memmove(s->e + at, s->e + at + 1, sizeof(s->e[0]) * (size_t) (s->n - at - 1)); memmove(s->lab + at, s->lab + at + 1, (size_t) (s->n - at - 1)); s->n--; }
         }
         break; }
+    case K_INSERT_SORTED: { spif_obj_t x = mk(o->x); m = "insert"; int at = 0;
+        while (at < s->n && s->lab[at] < LAB[o->x]) at++;
+        shape = s->n == 0 ? "empty list" : (at == 0 ? "sorts before everything" : (at == s->n ? "sorts after everything" : "sorts inside")); mc_set_shape(shape);
+        if (!SPIF_LIST_INSERT(s->l, x)) FAIL(site(m), "model:return", shape, "insert returned FALSE");
+        memmove(s->e + at + 1, s->e + at, sizeof(s->e[0]) * (size_t) (s->n - at)); memmove(s->lab + at + 1, s->lab + at, (size_t) (s->n - at));
+        s->e[at] = x; s->lab[at] = LAB[o->x]; s->n++; break; }
     case K_REMOVE_STORED: { spif_obj_t p = s->e[o->i]; m = "remove";
         int at = -1; for (int k = 0; k < s->n; k++) if (s->lab[k] == s->lab[o->i]) { at = k; break; }
         shape = at == o->i ? "stored element, no equal element before it" : "stored element with an equal element before it";
